@@ -218,6 +218,39 @@ def reference_adts(prog):
     return set(TYPES.values())
 
 
+def companion_in_lockstep(prog, primary, companion):
+    """every body that removes from `primary` (own effect) also removes from `companion` on every path through the removal,
+    and nothing is inserted into the companion without an insert into the primary in the same body"""
+    found = False
+    for b in prog.facts.lib_bodies():
+        bi = prog.info(b.id)
+        effs = prog.effects(b.id)
+        prem = [e for e in effs if prog.is_own(b.id, e) and e.touches(primary) and not e.touches(companion) and e.kind in L.REMOVE_KINDS | {"clear"}]
+        crem = {e.bb for e in effs if e.touches(companion) and e.kind in L.REMOVE_KINDS | {"clear"}}
+        for e in prem:
+            found = True
+            if not crem:
+                return False
+            # a path that finds nothing under the companion's key has nothing to remove there
+            from mapstate import regions
+            absent, _present = regions(prog, bi, companion, own_only=False, through_wrappers=True)
+            # `let Some(x) = map.remove(k) else { return }`: only the arm where something was removed carries the obligation
+            from mapstate import presence_switches
+            some_arms = [pt for (_sw, pt, _at) in presence_switches(bi, e.bb, "option") if pt is not None]
+            if some_arms:
+                after_ok = all(bi.cfg.escapes(pt, crem | absent, after=False) is None for pt in some_arms)
+            else:
+                after_ok = bi.cfg.escapes(e.bb, crem | absent, after=True) is None
+            before_ok = any(bi.cfg.dominates(c, e.bb) for c in crem)
+            if not (after_ok or before_ok):
+                return False
+        cins = [e for e in effs if prog.is_own(b.id, e) and e.touches(companion) and e.kind in L.INSERT_KINDS]
+        pins = [e for e in effs if e.touches(primary) and not e.touches(companion) and e.kind in L.INSERT_KINDS]
+        if cins and not pins:
+            return False
+    return found
+
+
 @rule("C11", "R11.4", "a deleted topic can die: only the topic manager holds strong references; subscriptions hold Weak<Topic>", floor=3)
 @rule("C10", "R11.4", "a deleted topic can die: only the topic manager holds strong references; subscriptions hold Weak<Topic>", floor=3)
 def r11_4(prog, out):
@@ -239,6 +272,9 @@ def r11_4(prog, out):
                     is_actor = any(a.ty == path for a in prog.actors)
                     if (path, f["name"]) in allowed:
                         out.holds(key, adt["span"], "the manager's map (and the transient listing page)")
+                    elif path == A.ty("TopicState") and companion_in_lockstep(prog, (path, "topics"), (path, f["name"])):
+                        out.holds(key, adt["span"], "a companion index of the manager's map: every removal from the map removes from the index in the same "
+                                  "critical section, so it keeps nothing alive that the map does not")
                     elif not stored_in and not is_actor and path not in (A.ty("Subscription"), A.ty("SubscriptionManager"), A.ty("TopicManager")) \
                             and path not in reference_adts(prog) and not long_lived(prog, path):
                         # a value type that no other structure stores: it lives as long as the local / task that holds it, like the
